@@ -15,9 +15,21 @@ type vWalkEntry struct {
 var vWalkTree []vWalkEntry
 
 func vStub_filepath_Walk(root string, fn filepath.WalkFunc) error {
+	skip := "" // subtree being skipped (SkipDir returned for that directory)
 	for _, e := range vWalkTree {
+		if skip != "" && len(e.path) > len(skip) && e.path[:len(skip)] == skip && e.path[len(skip)] == '/' {
+			continue
+		}
+		skip = ""
 		if err := fn(e.path, e.info, nil); err != nil {
-			if err == filepath.SkipDir || err == filepath.SkipAll {
+			if err == filepath.SkipDir {
+				if e.info.IsDir() {
+					skip = e.path
+					continue
+				}
+				return nil // SkipDir on a file: rest of its directory (the harness trees put files last)
+			}
+			if err == filepath.SkipAll {
 				return nil
 			}
 			return err
@@ -243,4 +255,74 @@ func VH_C10_FolderUploadCut_sym() {
 	if pi >= 0 {
 		vAssertEqBytes("cut_file_partial_is_prefix_received", vNSData[pi], append(append([]byte(nil), prev...), data[:got]...))
 	}
+}
+
+// A folder with two visible files and a hidden folder that itself holds a visible file. The client resumes both
+// files from different offsets. The count announced for the folder equals the item headers sent, and each resumed
+// file is framed with its own offset.
+func VH_C10_FolderDownloadTwoResumes_sym() {
+	vUnroll(300)
+	a := vBytesN("data_a", 4)
+	b := vBytesN("data_b", 4)
+	const root = "/r/folder"
+	vWalkTree = []vWalkEntry{
+		{root + "/", &vInfo{name: "folder", dir: true}},
+		{root + "/.cache", &vInfo{name: ".cache", dir: true}},
+		{root + "/.cache/v.txt", &vInfo{name: "v.txt", size: 1}},
+		{root + "/a.txt", &vInfo{name: "a.txt", size: 4}},
+		{root + "/b.txt", &vInfo{name: "b.txt", size: 4}},
+	}
+	st := &vStore{names: []string{root + "/a.txt", root + "/b.txt", root, root + "/.cache", root + "/.cache/v.txt"}, data: [][]byte{a, b, nil, nil, []byte{7}}}
+	count, err := CalcItemCount(root)
+	vAssert("count_ok", err == nil && len(count) == 2)
+	announced := int(count[0])<<8 | int(count[1])
+
+	ka := vChoice("offset_a", 3)
+	kb := 1 + vChoice("offset_b", 3)
+	resume := func(k int) []byte {
+		rd, _ := NewFileResumeData([]ForkInfoList{*NewForkInfoList([]byte{0, 0, 0, byte(k)})}).BinaryMarshal()
+		x := []byte{0, 2, byte(len(rd) >> 8), byte(len(rd))}
+		return append(x, rd...)
+	}
+	in := []byte{0, 3}
+	// the hidden folder's visible child is announced too (the walk descends into it): answer "skip"
+	in = append(in, 0, 3)
+	in = append(in, resume(ka)...)
+	in = append(in, 0, 3)
+	in = append(in, resume(kb)...)
+	in = append(in, 0, 3)
+	c := &vScriptRW{in: in}
+	ft := &FileTransfer{bytesSentCounter: &WriteCounter{}}
+	err = DownloadFolderHandler(c, root, ft, st, vLogger(), true)
+	vAssert("folder_download_ok", err == nil)
+	out := c.out
+	// item headers sent = occurrences of a header for v.txt (inside .cache), a.txt, b.txt
+	hdrV := []byte{0, 21, 0, 0, 0, 2, 0, 0, 6, '.', 'c', 'a', 'c', 'h', 'e', 0, 0, 5, 'v', '.', 't', 'x', 't'}
+	hdrA := []byte{0, 12, 0, 0, 0, 1, 0, 0, 5, 'a', '.', 't', 'x', 't'}
+	hdrB := []byte{0, 12, 0, 0, 0, 1, 0, 0, 5, 'b', '.', 't', 'x', 't'}
+	const ffoLen = 24 + 16 + 72 + 5 + 2 + 16
+	pos := 0
+	sent := 0
+	if len(out) >= len(hdrV) && string(out[:len(hdrV)]) == string(hdrV) {
+		pos = len(hdrV)
+		sent++
+	}
+	vAssert("file_a_header", len(out) >= pos+len(hdrA))
+	vAssertEqBytes("file_a_header_bytes", out[pos:pos+len(hdrA)], hdrA)
+	pos += len(hdrA)
+	sent++
+	wantA := ffoLen + 4 - ka
+	vAssert("file_a_prefix", len(out) >= pos+4+wantA && int(out[pos+3]) == wantA&0xff && int(out[pos+2]) == wantA>>8)
+	vAssertEqBytes("file_a_data_from_its_offset", out[pos+4+ffoLen:pos+4+wantA], a[ka:])
+	pos += 4 + wantA
+	vAssert("file_b_header", len(out) >= pos+len(hdrB))
+	vAssertEqBytes("file_b_header_bytes", out[pos:pos+len(hdrB)], hdrB)
+	pos += len(hdrB)
+	sent++
+	wantB := ffoLen + 4 - kb
+	vAssert("file_b_prefix_uses_its_own_offset", len(out) >= pos+4+wantB && int(out[pos+3]) == wantB&0xff && int(out[pos+2]) == wantB>>8)
+	vAssertEqBytes("file_b_data_from_its_own_offset", out[pos+4+ffoLen:pos+4+wantB], b[kb:])
+	pos += 4 + wantB
+	vAssert("nothing_after_last_item", pos == len(out))
+	vAssert("announced_count_equals_headers_sent", announced == sent)
 }
